@@ -219,6 +219,41 @@ func extractResolvers(c *ctx) {
 	}
 	b.WriteString("]\n\n/-- the fields of `type Mutation` in api/graphql/schema/root.graphql -/\n")
 	fmt.Fprintf(&b, "def schemaMutations : List String := %s\n", leanStrList(fields))
+	// the gate itself (api/auth): the package-level variables it keeps (state that outlives a request), and
+	// the calls `UserFromCtx` makes, with the receiver of each — the user is resolved in the repository the
+	// caller hands over, on every call
+	var authVars, gateCalls []string
+	for _, file := range []string{"context.go", "middleware.go", "errors.go"} {
+		f, err := parser.ParseFile(fset, filepath.Join(c.repo, "api/auth", file), nil, 0)
+		if err != nil {
+			authVars = append(authVars, file+":unparsed")
+			continue
+		}
+		for _, d := range f.Decls {
+			switch n := d.(type) {
+			case *ast.GenDecl:
+				if n.Tok == token.VAR {
+					for _, sp := range n.Specs {
+						for _, nm := range sp.(*ast.ValueSpec).Names {
+							authVars = append(authVars, nm.Name)
+						}
+					}
+				}
+			case *ast.FuncDecl:
+				if n.Name.Name == "UserFromCtx" && n.Body != nil {
+					ast.Inspect(n.Body, func(x ast.Node) bool {
+						if call, ok := x.(*ast.CallExpr); ok {
+							gateCalls = append(gateCalls, exprString(fset, call.Fun))
+						}
+						return true
+					})
+				}
+			}
+		}
+	}
+	sort.Strings(authVars)
+	fmt.Fprintf(&b, "\n/-- package-level variables of api/auth -/\ndef authVars : List String := %s\n", leanStrList(authVars))
+	fmt.Fprintf(&b, "\n/-- the calls made by `auth.UserFromCtx(ctx, r)`, in source order -/\ndef gateCalls : List String := %s\n", leanStrList(gateCalls))
 	b.WriteString("\nend GitBugModel.Gen.Resolvers\n")
 	c.writeLean("Resolvers.lean", b.String())
 	c.facts["resolver_programs"] = progs
